@@ -389,13 +389,44 @@ def main(prop):
     sys.exit(rc)
 
 
+def effective_kernels(prop):
+    """the kernels a property depends on: those its executable model calls (declared in the property module) and those
+    whose bridge lemma its theorem modules import, directly or not (found by scanning the `import` lines)"""
+    declared = list(getattr(prop, "KERNELS", ()))
+    inv = {}
+    for k, m in BRIDGE_MODULE.items():
+        inv.setdefault(m, []).append(k)
+    seen, stack, found = set(), list(prop.LEAN_MODULES), []
+    while stack:
+        m = stack.pop()
+        if m in seen:
+            continue
+        seen.add(m)
+        path = os.path.join(LEAN_DIR, m.replace(".", "/") + ".lean")
+        if not os.path.exists(path):
+            continue
+        for line in open(path):
+            mm = re.match(r"\s*import\s+(NpsVerif\.\S+)", line)
+            if mm:
+                stack.append(mm.group(1))
+                if mm.group(1).startswith("NpsVerif.Gen.Bridge."):
+                    k = mm.group(1).split(".")[-1]
+                    found += [k] + inv.get(k, [])
+    out = []
+    for k in declared + sorted(set(found)):
+        if k not in out:
+            out.append(k)
+    return tuple(out)
+
+
 def _main(prop, pid, tier, seed, replay, t0):
     rng = random.Random(seed * 1000003 + int(pid[1:]))
     findings = load_findings(pid)
     open_findings = [f for f in findings if f.get("status") == "open"]
 
     # ---------------- Lean phase
-    st = lean_phase(pid, prop.LEAN_MODULES, getattr(prop, "KERNELS", ()), tier)
+    kernels = effective_kernels(prop)
+    st = lean_phase(pid, prop.LEAN_MODULES, kernels, tier)
 
     # ---------------- cases
     if replay:
@@ -526,7 +557,7 @@ def _main(prop, pid, tier, seed, replay, t0):
                              "correspondence harness tools/engine.py + tools/props/" + pid.lower() + ".py"] + list(getattr(prop, "TRUSTED", [])),
             "theorems": {k: v for k, v in sorted(st.theorems.items())},
             "facets_correspondence_only": list(getattr(prop, "CORRESPONDENCE_ONLY", [])),
-            "kernels_regenerated": list(getattr(prop, "KERNELS", ())),
+            "kernels_regenerated": list(kernels),
             "kernel_translation_validated_against_real_methods": getattr(st, "kernel_validation", None),
             "kernels_text_changed_equivalence_reproved": st.kernels_changed,
             "broken_obligations": st.broken,
